@@ -230,6 +230,10 @@ def run(unit):
             r.outcomes[f'illtyped:{st}'] += 1
             if st == 'ok':
                 explore(obj, f'parse_property({text})', r, 1, seen)
+        # the same computed-index element (no literal / variable / field index) used at two disjoint types
+        for ref in ('xs[x + 1]', 'xs[-1]', 'xs[abs(x)]', 'xs[@i + 1]', 'ms[len(xs) - 1].f', 'xs[xs[0]]', 'xs[x * 2]'):
+            for use1, use2 in (('%s > 0', 'not %s'), ('not %s', '%s + 1 > 0'), ('%s in {1}', '%s.f > 0'), ('%s = "a"', '%s + 1 > 0')):
+                texts += [f'{use1 % ref} and {use2 % ref}', f'{use2 % ref} and ({use1 % ref} and y = y)', f'{use1 % ref} implies {use2 % ref}']
         texts += ['x > 0 and x = y and x = "a"', 'x and (x = y) and x > 0', 'not x and x in {y} and len(x) > 0', '1 = "a"', '(x + 1) = "a" or p', 'len(xs) = True']
         for text in texts:
             r.count('evaluations')
